@@ -468,3 +468,17 @@ def judge(case):
         else:
             res.fail('semantics:%s' % sym, s_tag, obs, text)
     return res
+
+
+def fuzz_build(d):
+    """builder for the Atheris target (same decoder as the strategy)"""
+    return _build_case(d, 6)
+
+
+def extra(tier, seed, shard, nshards, hb, acc):
+    if tier != 'thorough':
+        return
+    from vf.core import fuzz
+    import sys
+    fuzz.campaign(sys.modules[__name__], 'fuzz_build', 120000, seed, shard, hb,
+                  acc)
